@@ -62,8 +62,21 @@ def edit_refs_and_recheck(sh, doc, rng, seed):
     for R, (how, idx, col, r) in zip(db.refs, order):
         if how == 'inline' or rng.random() > 0.5:
             continue
-        what = rng.choice(['kind', 'kind', 'inline', 'name', 'actions'])
-        if what == 'kind':
+        what = rng.choice(['kind', 'kind', 'inline', 'name', 'actions', 'repoint', 'repoint'])
+        if what == 'repoint':
+            # the first endpoint is assigned anew (ref.col1 = [a column of a third table]): from now on THAT table is involved
+            third = [ti_ for ti_ in range(len(d2.tables)) if ti_ not in (r.t1, r.t2) and ('t', ti_) in d2.order]
+            if r.kind == '<>' or len(r.cols1) != 1 or not third:
+                continue
+            t3 = rng.choice(third)
+            c3 = rng.choice(d2.tables[t3].columns).name
+            if any(q is not r and {(q.t1, tuple(q.cols1)), (q.t2, tuple(q.cols2))} == {(t3, (c3,)), (r.t2, tuple(r.cols2))} for q in d2.refs):
+                continue
+            r.t1, r.cols1 = t3, [c3]
+            order_t_ = [i_ for k_, i_ in d2.order if k_ == 't']
+            R.col1 = [db.tables[order_t_.index(t3)][c3]]
+            sh.count('obs.endpoint_reassigned')
+        elif what == 'kind':
             new = rng.choice(['>', '<', '-', '<>'])
             key = (d2.tables[r.t1].schema, d2.tables[r.t1].name, d2.tables[r.t2].name)
             if new == '<>' and key in m2m:
